@@ -8,11 +8,14 @@ class C13(PropertyCheck):
     source_tables = ["FsConfig"]   # tables / constants regenerated from /repo's source (gen/srctables.py)
     rule = ("streams: corpus (F16: a layer containing a copy of its own absolute path; F18: glob metacharacters in directory names); "
             "every history up to length 2 (thorough 3) over a 13-call alphabet on three colliding paths from five two-layer states; "
-            "random histories dominated by list (default pattern, '**/*', '*', '*.<ext>', '**/*.<ext>', '<name>/*') and subdirectories, localized and not, "
+            "random histories dominated by list (default pattern, '**/*', '*', '*.<ext>', '**/*.<ext>', '<name>/*'; <ext> and <name> drawn from pools that satisfy the "
+            "model's predicate plain_pattern_arg - no * ? [ ] { } \\ / - asserted by the generator, including arguments with '!', '-', '.', spaces and non-ASCII characters) "
+            "and subdirectories, localized and not, "
             "interleaved with writes and create_dir, on 1-4 real temp-directory layers with nested and empty directories, the same path in "
-            "several layers, hidden names, names with glob metacharacters, listings of the root, of files and of missing directories; every "
+            "several layers, hidden names, DIRECTORY and FILE names with glob metacharacters (a[b], q?, st*r, [!a], c{d}, a], b[1].txt, {x}.txt, *.txt, ?.bin), listings of the root, of files and of missing directories; every "
             "listed path is put to the filesystem's own exists.  Non-trivial = a listing call returned at least one entry; distinct = distinct case line.")
-    assumptions = ["A-fs: glob 0.3 with default MatchOptions on the pattern family above ('*' also matches names with a leading dot, '**/' matches "
+    assumptions = ["A-fs: glob 0.3 with default MatchOptions on the pattern family above with glob-literal arguments (the caller's pattern is interpreted by glob: an <ext> / <name> "
+                   "containing * ? [ or '/' - and, excluded for safety, ] { } \\ - is outside the model, fs_list answers EUnmodelled there) ('*' also matches names with a leading dot, '**/' matches "
                    "zero or more directories, directories are results like files), std::fs, Path::join and normpath::normalize behave like the tree "
                    "model on relative paths of plain components in existing, symlink-free layer directories; observed only through the correspondence",
                    "Rust's String order is the byte-wise order of the UTF-8 encoding, which is the lexicographic order of the scalar values the model compares"]
@@ -45,7 +48,7 @@ TB = ("Trusted: Coq 8.16.1 kernel (vm_compute, no native_compute), no axioms (Pr
       "ExtrOcamlBasic extraction + hand-written OCaml driver, the Rust harness and Python generators/oracles. ")
 
 MANIFEST = dict(
-    text="Theorems (Coq 8.16, closed under the global context) about the listing functions of the executable LayeredFilesystem model: a listing contains exactly the rendered entries of the union of the per-layer listings; one well-formed layer contributes exactly the entries (files and directories) present strictly under the directory that the pattern selects, for the family '**/*' (default), '*', '*.<ext>', '**/*.<ext>', '<name>/*' (specification predicate written from glob's documentation); the result is StronglySorted in the strict byte-wise order of the rendered paths, hence duplicate-free; subdirectories = exactly the immediate children that are directories in some layer, sorted; every listed path satisfies the filesystem's own exists (directory_exists for subdirectories); a directory present in no layer lists as empty; a localized listing equals the unlocalized listing of the localized directory; layer well-formedness, the hypothesis of these theorems, is an invariant of every history of operations and its executable check is sound. Also proved here: C14_fs_consistent (every localized operation addresses localize p; read/write pick the codec by the caller's name, which for dir/name paths is the same choice). The model - which describes the repaired code (F16, F18) - is tied to /repo on every run by listing-dominated histories on 1-4 real temp-directory layers (nested/empty directories, same path in several layers, hidden names, glob metacharacters in names, root, files, missing directories, after writes), results compared as lists with the extracted model and with an independent Python union/sort/de-duplicate over the walked directories; every listed path is also put to the real exists.",
-    note=TB + "Modelled, not verified (A-fs): glob 0.3 with default MatchOptions on the pattern family ('*' also matches names with a leading dot, '**/' matches zero or more directories, directories are results like files - established by experiment and pinned by the correspondence), std::fs, Path::join, normpath::normalize on relative paths of plain components in existing symlink-free layer directories; Rust's String order = byte-wise order of UTF-8 = lexicographic order of scalar values. Patterns outside the family and Windows separators are out of scope.",
+    text="Theorems (Coq 8.16, closed under the global context) about the listing functions of the executable LayeredFilesystem model: a listing contains exactly the rendered entries of the union of the per-layer listings; one well-formed layer contributes exactly the entries (files and directories) present strictly under the directory that the pattern selects, for the family '**/*' (default), '*', '*.<ext>', '**/*.<ext>', '<name>/*' (specification predicate written from glob's documentation) WITH <ext> AND <name> FREE OF GLOB METACHARACTERS AND OF THE SEPARATOR: the code hands the caller's pattern to glob, which interprets it, while the model reads the arguments literally, so the family is modelled only for wf_pattern pat = true (C13_pattern_domain: <ext> / <name> contain none of * ? [ ] { } \\ /, <name> a plain component); outside, the model's fs_list answers EUnmodelled (C13_list_ok_pattern, C13_list_outside_domain) and nothing is claimed - e.g. the code's list(d, '*.[t]') returns d/b.t where the literal reading would give d/c.[t] (C13_example_literal); names of directories and files in the layers, and the listed directory itself, may contain any of these characters; the result is StronglySorted in the strict byte-wise order of the rendered paths, hence duplicate-free; subdirectories = exactly the immediate children that are directories in some layer, sorted; every listed path satisfies the filesystem's own exists (directory_exists for subdirectories) and the query of its kind - file_exists for a listed file, directory_exists for a listed directory (C13_listed_exist_kind); subdirectories as one union statement without duplicates (C13_subdirs_union, C13_subdirs_nodup); a directory present in no layer lists as empty; a localized listing equals the unlocalized listing of the localized directory; layer well-formedness, the hypothesis of these theorems, is an invariant of every history of operations and its executable check is sound. Also proved here: C14_fs_consistent (every localized operation addresses localize p; read/write pick the codec by the caller's name, which for dir/name paths is the same choice). The model - which describes the repaired code (F16, F18) - is tied to /repo on every run by listing-dominated histories on 1-4 real temp-directory layers (nested/empty directories, same path in several layers, hidden names, glob metacharacters in names, root, files, missing directories, after writes), results compared as lists with the extracted model and with an independent Python union/sort/de-duplicate over the walked directories; every listed path is also put to the real exists.",
+    note=TB + "Modelled, not verified (A-fs): glob 0.3 with default MatchOptions on the pattern family ('*' also matches names with a leading dot, '**/' matches zero or more directories, directories are results like files - established by experiment and pinned by the correspondence), std::fs, Path::join, normpath::normalize on relative paths of plain components in existing symlink-free layer directories; Rust's String order = byte-wise order of UTF-8 = lexicographic order of scalar values. Patterns outside the family - in particular pattern ARGUMENTS containing glob metacharacters (* ? [ are interpreted by glob 0.3; ] { } \\ are excluded as well) or '/' - and Windows separators are out of scope; the generator's pattern arguments are asserted to satisfy the model's predicate (fsgen.wf_pattern = LayeredFS.wf_pattern, the character list is read back from Model/LayeredFS.v at import).",
     technique='Coq proof (insertion-sort/de-duplication invariants, filter/flat_map membership, well-formedness invariant) + extracted-model differential check on real temp directories + independent oracle',
     ref='DESIGN.md section 5 (C13); notes/fs.md')
